@@ -1,5 +1,7 @@
 #![allow(dead_code, clippy::all)]
+mod c07;
 mod c08;
+mod progs;
 mod c09;
 mod c10;
 mod gentree;
@@ -21,6 +23,7 @@ fn main() {
     };
     let replay = args.iter().position(|a| a == "--replay").and_then(|i| args.get(i + 1)).cloned();
     let code = match id {
+        "C07" => c07::run(tier, replay),
         "C08" => c08::run(tier, replay),
         "C09" => c09::run(tier, replay),
         "C10" => c10::run(tier, replay),
